@@ -518,6 +518,52 @@ func (r *c09Run) checkShapesOwnFields(i int, cls string, booksOf map[string][]st
 		}
 		r.shape["q:parent-by-two-relations:"+op] = true
 	}
+	// --- the same relation at the top level of the filter and inside a compound branch
+	{
+		op := ops[rx.IntN(len(ops))]
+		x := float64(rx.IntN(9)) + 0.5
+		age := 20 + rx.IntN(9)
+		td, ok := r.q(i, `query { Book { _docID title } }`)
+		if !ok {
+			return
+		}
+		titleOf := map[string]string{}
+		var titles []string
+		for _, row := range rows(td, "Book") {
+			titleOf[fmt.Sprint(row["_docID"])] = fmt.Sprint(row["title"])
+			titles = append(titles, fmt.Sprint(row["title"]))
+		}
+		sort.Strings(titles)
+		if len(titles) > 0 {
+			title := titles[rx.IntN(len(titles))]
+			q := fmt.Sprintf(`query { User(filter: {books: {rating: {%s: %v}}, _or: [{books: {title: {_eq: %q}}}, {age: {_eq: %d}}]}) { _docID } }`, op, x, title, age)
+			data, ok := r.q(i, q)
+			if !ok {
+				return
+			}
+			var want []string
+			for u, bs := range booksOf {
+				byRating, byTitle := false, false
+				for _, b := range bs {
+					if cmpOp(op, r.books[b].rating, x) {
+						byRating = true
+					}
+					if titleOf[b] == title {
+						byTitle = true
+					}
+				}
+				if byRating && (byTitle || r.users[u] == age) {
+					want = append(want, u)
+				}
+			}
+			sort.Strings(want)
+			if got := idsOf(data["User"]); canon(got) != canon(nonNil(want)) {
+				r.res.violate("C09", "relation-filter-differs", "relation-at-top-level-and-in-or:"+op+"/"+cls, i, "%s = %v, by the model %v", q, got, want)
+				return
+			}
+			r.shape["q:relation-at-top-level-and-in-or:"+op] = true
+		}
+	}
 	// --- one-to-one: the relation id seen from the side that does not store it
 	{
 		var want []string
